@@ -1,32 +1,59 @@
 import Goyang.Lemmas.BridgeBuilt
 import Goyang.Lemmas.ConfigNsDev
+import Goyang.Lemmas.ConfigNsBuilt
 import Goyang.Props.C12
 import Goyang.Props.C12Conv
 import Goyang.Props.C04
 /-
-C12, bridge to `processAll` — the composition Props/C12.lean keeps visible as
-`processAll_built_statement` ("Missing: threading these through `augmentLoop`/`augmentPass` …,
-`Find` creating an absent rpc input/output, error recording on the root").
+C12, bridge to `processAll` — the composition Props/C12.lean states as `processAll_built_statement`.
 
-`Built'` (Lemmas/BridgeBuilt.lean) is `Spec.ConfigNs.Built` with the steps of the augment loop that
-write no stamp, each leaving the provenance as it is:
+PROVED HERE, at full strength: `processAll_built : C12.processAll_built_statement` — the forest of an
+error-free `processAll` run without deviations is `Spec.ConfigNs.Built` itself; corollary on `processAll`:
+`processAll_namespace_placedBy`.  And, deviations included: `processAll_provenance` /
+`processAll_namespace_readOnly` (class `BuiltX reg false`), `deviate_config_reflected`,
+`deviate_readOnly_target`.
+
+How.  `Built'` (Lemmas/BridgeBuilt.lean) is `Built` with the steps of the augment loop that write no
+stamp, each leaving the provenance as it is:
   `rootErr`  — an error recorded on the root entry of a tree (`Find`: unresolvable prefix;
                `Entry.Augment` with `addErrors`: `augment-not-found`);
   `implicit` — `Find` creating the input / output an rpc / action did not spell out;
   `congr`    — a forest with the same `tree?` answers (`Find` stores the tree it walked back into
                the forest even when nothing changed; nothing ever reads a forest but through `tree?`).
 Every `Built` forest is `Built'`; C12's provenance theorem holds for `Built'` (`namespace_placedBy_prime`);
-and `Built'` is threaded through `augmentTree`, `augmentPass`, `augmentLoop`, `FixChoice`, the leftover
-pass and the second `FixChoice`: the forest `processAll` applies its deviations to is `Built'`
-(`preDev_builtPrime`, for every registry, option set and plugged-in stage), hence so is the forest an
-error-free `processAll` returns when no loaded module has a deviation statement
-(`processAll_builtPrime`: C12's end-to-end statement with `Built'` for `Built`).
+`Built'` is threaded through `augmentTree`, `augmentPass`, `augmentLoop`, `FixChoice`, the leftover pass
+and the second `FixChoice` for every input (`preDev_builtPrime`, `processAll_builtPrime`).
+
+From `Built'` to `Built` on an error-free run (Lemmas/ConfigNsComm.lean, Lemmas/ConfigNsBuilt.lean):
+  * `rootErr` is absent: an error on a root is never removed (`builtX_of_clean`; in the threading:
+    the invariant is "`Built`, or some root carries an error", `preDev_built_or_rootError`);
+  * `congr` is only ever used for literally equal forests or for storing a tree back, and the class is
+    closed under that (`builtU_closed_store`);
+  * `implicit` commutes back through every earlier `graft` (into the tree grafted into, or — when the
+    rpc is inside a child the graft added — into the grafted entry) and every earlier `fix`
+    (`FixChoice` commutes with the creation at the translated path; every rpc node of a fixed tree is the
+    image of a node of the original), down to `init`, which absorbs it (`builtU_closed_implicit`).  The
+    commutation needs the children of a node to be filed under pairwise different non-empty names and
+    the paths to be proper (`U`, `PathOK` of Lemmas/Tree.lean, which the augment stage maintains):
+    `BuiltU` is `Built` with these side conditions recorded; `builtU_is_built` forgets them.
+
+The deviation stage (Lemmas/ConfigNsDev.lean): `BuiltX reg ae` = `Built'` + `retouch` (the deviated copy
+of the target written back: same children, stamp, name, errors) + `remove` (`deviate not-supported`: the
+removed locations lose their placer), with `rootErr` only when `ae = true`.  `final_builtX`: the forest
+`processAll` ends with is `BuiltX reg true` for every input; `processAll_provenance`: `BuiltX reg false`
+on an error-free run; `namespace_placedBy_dev`: the provenance theorem for it.  Read-only after a
+deviation: `deviate_config_reflected` (which config the statement leaves on the target),
+`deviate_readOnly_target` and `processAll_namespace_readOnly` (`ReadOnly()` is the rule on the returned
+tree, so a written config is the node's explicit config from then on).
 
 The namespace an augment of tree `id` stamps with is computed once per `Entry.Augment` call from the
 root of tree `id`; it is `ownerNs reg id` because that tree exists — C04's invariant "the tree of
 every (sub)module with pending augments exists" is part of the threaded invariant.  `FixChoice`
 needs the path translation `liftPath` to be one-to-one on existing paths (`liftPath_injective`).
-Not covered: the deviation stage (replaces node data, removes nodes, writes no stamp).
+Not proved: the literal `Built`-style class for runs WITH deviations whose path lookup creates an rpc
+input / output (there the class is `BuiltX`, which keeps `implicit` and `congr` as constructors); hypotheses
+of the `processAll_*` theorems cannot be instantiated by `decide` on a module set with an augment or a
+deviation (`String.splitOn` does not reduce in the kernel): the examples use C04's module and explicit trees.
 -/
 namespace Goyang.Props.C12Bridge
 open Goyang.Model Goyang.Spec.ConfigNs
@@ -183,7 +210,111 @@ theorem processAll_namespace_readOnly (reg : Registry) (opts : Opts) (plug : Plu
     ⟨fun m hp => namespace_placedBy_dev hb loc m root hroot hp, C12.readOnly_exact root loc.2,
       fun h => C12.readOnly_spec root loc.2 h⟩⟩
 
+/-- **What a deviate statement does to the config of its target**: `add` / `replace` with a `config`
+substatement write that value; `delete` with one erases the node's config statement; `not-supported`,
+an unknown kind, and a statement without `config` leave it alone.  (The statement's other effects do not
+touch the config, whether or not they are reported.) -/
+theorem deviate_config_reflected (opts : Opts) (ms : Stmt) (kind : String) (spec : Entry) (hp : Bool) (node : Entry) :
+    (applyOneDeviate opts ms kind spec hp node).1.d.config =
+      match Goyang.Lemmas.Deviate.kindOf kind with
+      | .add | .replace => if spec.d.config != .unset then spec.d.config else node.d.config
+      | .delete => if spec.d.config != .unset then .unset else node.d.config
+      | _ => node.d.config :=
+  Goyang.Lemmas.ConfigNsDev.applyOneDeviate_config opts ms kind spec hp node
+
+/-- **The read-only clause after a deviation.**  The deviation stage writes the deviated copy `node'`
+of the target back at its path; the property demands that from then on the written config is that
+node's explicit config: `ReadOnly()` of the target is `node'`'s config (if it has one and is no rpc
+output — config inside operations is outside the property), and every node below without a config of
+its own inherits it (`processAll_namespace_readOnly`: `ReadOnly()` is the rule evaluated on the path of
+the *returned* tree). -/
+theorem deviate_readOnly_target (root : Entry) (path : Path) (node node' : Entry) (hg : root.getAt path = some node)
+    (hname : node'.name = node.name) (hc : node'.d.config ≠ .unset) (hk : node'.d.kind ≠ .output) :
+    (root.updateAt path fun _ => node').readOnlyAt path = (node'.d.config == .false_) := by
+  have hst : Goyang.Lemmas.Deviate.NameStable path (fun _ => node') :=
+    Goyang.Lemmas.Deviate.NameStable.of_pathNamed
+      (Goyang.Lemmas.Deviate.pathNamed_step hname (Goyang.Lemmas.Deviate.pathNamed_of_getAt path root node hg))
+  refine Goyang.Lemmas.ConfigNsDev.readOnlyAt_explicit _ path node' ?_ hc hk
+  rw [Goyang.Lemmas.Deviate.getAt_updateAt_self _ path hst root, hg]; rfl
+
 end Dev
+
+/-! ### the literal `Built`: the composition gap closed -/
+section Literal
+open Goyang.Lemmas.ConfigNsBuilt (BuiltU BD Dirty)
+open Goyang.Lemmas.ConfigNsComm (SlotEmpty)
+open Goyang.Lemmas.Tree (U PathOK)
+
+/-- `BuiltU` (Lemmas/ConfigNsBuilt.lean) is `Built` with side conditions recorded at each step — the
+tree a graft goes into and the grafted entry have their children under pairwise different non-empty
+names (`U`), the graft path has no empty name (`PathOK`), the target is no rpc; the trees `FixChoice` is
+applied to satisfy `U`.  Every `BuiltU` forest is `Built`, with the same provenance. -/
+theorem builtU_is_built {reg : Registry} {f : Forest} {prov : Loc → Option Nat} (h : BuiltU reg f prov) :
+    Built reg f prov := h.toBuilt
+
+/-- `Find` stores the tree it walked back into the forest even when nothing changed: `BuiltU` is closed
+under that (the literal forest equality, not only the `tree?` answers), provenance unchanged. -/
+theorem builtU_closed_store {reg : Registry} {f : Forest} {prov : Loc → Option Nat} (hb : BuiltU reg f prov)
+    (t : Nat) (root : Entry) (ht : f.tree? t = some root) : BuiltU reg (f.setTree t root) prov :=
+  Goyang.Lemmas.ConfigNsBuilt.builtU_store hb t root ht
+
+/-- **`Find` creating an absent rpc input / output keeps a forest `BuiltU`** (hence `Built`): the
+creation, at a proper existing path of any tree, at an rpc / action node that lacks the input (output),
+commutes back through every earlier graft — into the tree grafted into or, when it happens inside a
+child the graft added, into the grafted entry — and through every earlier `FixChoice`, down to the
+conversion, where it meets a stamp-free tree.  The created node carries no stamp. -/
+theorem builtU_closed_implicit {reg : Registry} {f : Forest} {prov : Loc → Option Nat} (hb : BuiltU reg f prov)
+    (t : Nat) (root e : Entry) (p : Path) (b : Bool) (ht : f.tree? t = some root) (hg : root.getAt p = some e)
+    (hr : e.d.isRpc = true) (hp : PathOK p) (he : SlotEmpty b e) :
+    ∃ prov', Built reg (f.setTree t (root.updateAt p (Goyang.Spec.Find.addImplicit b))) prov' := by
+  obtain ⟨prov', h⟩ := Goyang.Lemmas.ConfigNsBuilt.builtU_implicit hb t root e p b ht hg hr hp he
+  exact ⟨prov', h.toBuilt⟩
+
+/-- **The forest `processAll` applies its deviations to is `Built`, or some root carries an error** —
+every registry, option set and plug.  (Errors recorded on a root are never removed: the third extra
+step of `Built'` shows in the result.) -/
+theorem preDev_built_or_rootError (reg : Registry) (opts : Opts) (plug : Plug) :
+    (∃ prov, Built reg (Lemmas.Tree.preDev reg opts plug).forest prov) ∨
+    (∃ t root, (Lemmas.Tree.preDev reg opts plug).forest.tree? t = some root ∧ root.d.errors ≠ []) := by
+  rcases (Goyang.Lemmas.ConfigNsBuilt.bj_preDev reg opts plug).main with ⟨prov, hb⟩ | hd
+  · exact Or.inl ⟨prov, hb.toBuilt⟩
+  · exact Or.inr hd
+
+/-- **C12's end-to-end statement, proved** (`C12.processAll_built_statement`): the forest of an
+error-free `processAll` run without deviations is `Built` — conversion (`init`: every node of tree `id`
+placed by (sub)module `id`), one `graft` per applied augment (the added children and everything below
+them placed by the augmenting (sub)module), `FixChoice` (`fix`: placers kept under the path
+translation, inserted cases placed by nobody).  The steps of the augment loop that `Built` has no
+constructor for are accounted for: no error was recorded on a root (the run is error-free and such
+errors stay), trees stored back unchanged change nothing, and every rpc input / output `Find` created
+on the way is moved back to the conversion (`builtU_closed_implicit`). -/
+theorem processAll_built : C12.processAll_built_statement := by
+  intro reg opts plug hclean hnd
+  obtain ⟨_, _, h3, _, h5⟩ := Lemmas.Tree.processAll_clean reg opts plug hclean
+  rw [h5, devStage_no_deviations reg opts plug _ hnd]
+  exact Goyang.Lemmas.ConfigNsBuilt.preDev_built_of_clean reg opts plug h3
+
+/-- The same for the forest before the deviation stage, deviations or not. -/
+theorem preDev_built_clean (reg : Registry) (opts : Opts) (plug : Plug)
+    (hclean : (processAll reg opts plug).errors = []) :
+    ∃ prov, Built reg (Lemmas.Tree.preDev reg opts plug).forest prov := by
+  obtain ⟨_, _, h3, _, _⟩ := Lemmas.Tree.processAll_clean reg opts plug hclean
+  exact Goyang.Lemmas.ConfigNsBuilt.preDev_built_of_clean reg opts plug h3
+
+/-- **Namespace attribution, end to end, with the literal `Built`**: in the forest of an error-free
+`processAll` run without deviations, every location placed by (sub)module `m` — a node of `m`'s own
+tree, grouping content at any depth included, or a node grafted by one of `m`'s augments — reports the
+namespace of the module `m` belongs to. -/
+theorem processAll_namespace_placedBy (reg : Registry) (opts : Opts) (plug : Plug)
+    (hclean : (processAll reg opts plug).errors = [])
+    (hnd : ∀ m ∈ reg.mods, m.stmt.all "deviation" = []) :
+    ∃ prov, Built reg (processAll reg opts plug).forest prov ∧
+      ∀ (loc : Loc) (m : Nat) (root : Entry), (processAll reg opts plug).forest.tree? loc.1 = some root →
+        prov loc = some m → namespaceAt reg (processAll reg opts plug).forest loc = ownerNs reg m := by
+  obtain ⟨prov, hb⟩ := processAll_built reg opts plug hclean hnd
+  exact ⟨prov, hb, fun loc m root hroot hp => C12.namespace_placedBy hb loc m root hroot hp⟩
+
+end Literal
 
 /-! ### non-vacuity -/
 section Examples
@@ -215,6 +346,98 @@ example :
     Built'.implicit (t := 0) (root := root) (e := rpc) (p := [.child "r"]) true hb (by rfl) (by rfl)
       (by rw [if_pos rfl]; rfl)
   exact ⟨hb', built'_namespace hb' (0, [.child "r", .input]) 0 (by rfl) rfl⟩
+
+/-- C04's example module satisfies the hypotheses of `processAll_built`, `processAll_namespace_placedBy`,
+`preDev_built_clean`, `processAll_provenance` and `processAll_namespace_readOnly`; so its forest is `Built`. -/
+example : ∃ prov, Built reg1 (processAll reg1 {} plug).forest prov :=
+  processAll_built reg1 {} plug (by decide +kernel) (by decide +kernel)
+
+/-- The commutation on a concrete forest: module tree with an rpc `r` that has no written input and a
+container `c`; an augment grafts a leaf under `c`; then `Find` creates the input of `r`.  The hypotheses
+of `builtU_closed_implicit` hold, and the resulting forest is `Built`: the creation is moved back before
+the graft. -/
+example :
+    let rpc : Entry := .mk { name := "r", isRpc := true } [] [] []
+    let cont : Entry := .mk { name := "c" } [] [] []
+    let root : Entry := .mk { name := "m" } [rpc, cont] [] []
+    let aug : Entry := .mk { name := "/c" } [.mk { name := "x", kind := .leaf, hasDir := false } [] [] []] [] []
+    let f : Forest := { trees := [(0, root)] }
+    ∀ reg : Registry,
+      let root' := root.updateAt [.child "c"] fun te => te.merge (some (ownerNs reg 0)) aug
+      ∃ prov', Built reg ((f.setTree 0 root').setTree 0 (root'.updateAt [.child "r"] (Goyang.Spec.Find.addImplicit true))) prov' := by
+  intro rpc cont root aug f reg root'
+  have h0 : Goyang.Lemmas.ConfigNsBuilt.BuiltU reg f (fun loc => some loc.1) :=
+    Goyang.Lemmas.ConfigNsBuilt.BuiltU.init (by
+      intro id t h
+      have : t = root := by
+        simp only [f, Forest.tree?, List.find?] at h
+        split at h
+        · simpa using h.symm
+        · cases h
+      subst this; decide)
+  have h1 : Goyang.Lemmas.ConfigNsBuilt.BuiltU reg (f.setTree 0 root') (fun loc => some loc.1) :=
+    Goyang.Lemmas.ConfigNsBuilt.BuiltU.graft (by_ := 0) (t := 0) (path := [.child "c"]) (root := root) (te := cont)
+      (a := aug) (prov := fun loc => some loc.1) h0 (by rfl) (by rfl) (by decide) (by unfold Goyang.Lemmas.Tree.U; decide)
+      (fun k hk => by simp only [List.mem_singleton, Step.child.injEq] at hk; subst hk; decide) rfl
+      (by unfold Goyang.Lemmas.Tree.U; decide)
+      (fun loc h => by rw [h.1]) (fun loc _ => rfl)
+  exact builtU_closed_implicit h1 0 root' rpc [.child "r"] true (by rfl) (by rfl) rfl
+    (fun k hk => by simp only [List.mem_singleton, Step.child.injEq] at hk; subst hk; decide) rfl
+
+/-- The two constructors of the deviation stage on a concrete forest: `deviate replace { config false; }`
+on the leaf `/c/x` (`retouch`: the placer stays, the namespace stays, `ReadOnly()` follows the written
+config) and `deviate not-supported` on `/c/y` (`remove`: the removed location has no placer). -/
+example :
+    let x : Entry := .mk { name := "x", kind := .leaf, hasDir := false } [] [] []
+    let x' : Entry := .mk { name := "x", kind := .leaf, hasDir := false, config := .false_ } [] [] []
+    let y : Entry := .mk { name := "y", kind := .leaf, hasDir := false } [] [] []
+    let root : Entry := .mk { name := "m" } [.mk { name := "c" } [x, y] [] []] [] []
+    let f : Forest := { trees := [(0, root)] }
+    let root1 := root.updateAt [.child "c", .child "x"] fun _ => x'
+    let f1 := f.setTree 0 root1
+    let f2 := f1.setTree 0 (removeAt root1 [.child "c", .child "y"])
+    ∀ reg : Registry, ∃ prov, Goyang.Lemmas.ConfigNsDev.BuiltX reg false f2 prov ∧
+      prov (0, [.child "c", .child "x"]) = some 0 ∧ prov (0, [.child "c", .child "y"]) = none ∧
+      namespaceAt reg f2 (0, [.child "c", .child "x"]) = ownerNs reg 0 ∧
+      root.readOnlyAt [.child "c", .child "x"] = false ∧
+      (removeAt root1 [.child "c", .child "y"]).readOnlyAt [.child "c", .child "x"] = true := by
+  intro x x' y root f root1 f1 f2 reg
+  classical
+  have h0 : Goyang.Lemmas.ConfigNsDev.BuiltX reg false f (fun loc => some loc.1) :=
+    Goyang.Lemmas.ConfigNsDev.BuiltX.init (by
+      intro id t h
+      have : t = root := by
+        simp only [f, Forest.tree?, List.find?] at h
+        split at h
+        · simpa using h.symm
+        · cases h
+      subst this; decide)
+  have h1 : Goyang.Lemmas.ConfigNsDev.BuiltX reg false f1 (fun loc => some loc.1) :=
+    Goyang.Lemmas.ConfigNsDev.BuiltX.retouch (t := 0) (root := root) (node := x) (node' := x')
+      (path := [.child "c", .child "x"]) h0 (by rfl) (by rfl) rfl rfl rfl rfl rfl rfl
+  have h2 : Goyang.Lemmas.ConfigNsDev.BuiltX reg false f2
+      (fun loc => if Goyang.Lemmas.ConfigNsDev.Removed 0 [.child "c", .child "y"] loc then none else some loc.1) :=
+    Goyang.Lemmas.ConfigNsDev.BuiltX.remove (t := 0) (root := root1) (path := [.child "c", .child "y"])
+      h1 (by rfl) (by simp) (by decide) (fun loc h => by simp only [h, if_true]) (fun loc h => by simp only [h, if_false])
+  have hx : ¬ Goyang.Lemmas.ConfigNsDev.Removed 0 [.child "c", .child "y"] (0, [.child "c", .child "x"]) := by
+    rintro ⟨_, h⟩
+    have := (List.cons_prefix_cons.mp h).2
+    have := (List.cons_prefix_cons.mp this).1
+    revert this; decide
+  have hy : Goyang.Lemmas.ConfigNsDev.Removed 0 [.child "c", .child "y"] (0, [.child "c", .child "y"]) :=
+    ⟨rfl, List.prefix_refl _⟩
+  refine ⟨_, h2, by simp only [hx, if_false], by simp only [hy, if_true], ?_, by decide, by decide⟩
+  exact namespace_placedBy_dev h2 (0, [.child "c", .child "x"]) 0 _ (by rfl) (by simp only [hx, if_false])
+
+/-- The hypotheses of `deviate_readOnly_target` on the same tree: `/c/x` gets `config false`. -/
+example :
+    let x : Entry := .mk { name := "x", kind := .leaf, hasDir := false } [] [] []
+    let x' : Entry := .mk { name := "x", kind := .leaf, hasDir := false, config := .false_ } [] [] []
+    let root : Entry := .mk { name := "m" } [.mk { name := "c" } [x] [] []] [] []
+    (root.updateAt [.child "c", .child "x"] fun _ => x').readOnlyAt [.child "c", .child "x"] = true ∧
+      root.readOnlyAt [.child "c", .child "x"] = false := by
+  intro x x' root
+  exact ⟨deviate_readOnly_target root [.child "c", .child "x"] x x' (by rfl) rfl (by decide) (by decide), by decide⟩
 
 end Examples
 
